@@ -12,6 +12,7 @@ TB = [
     "hand-written model of tax_utils (get_ident, LineageDB.load, summarize_up_ranks, build_summarized_result, check_values, build_classification_result, writer ordering) tied to /repo by the tax stream: exact (bit-for-bit) comparison of every reported double, row order included",
     "hypotheses of the theorems = what gather guarantees about its own rows (f_i = k_i/N, f_weighted_i = w_i/W, bp_i = k_i*scaled, positive pairwise-disjoint unique overlaps, sum k_i <= N, all found iff all weight found): this is property C07; the adapter re-checks on every case that the gather rows it obtains by RUNNING gather have exactly this form",
     "kreport / bioboxes / human number formatting is modelled exactly (fmul, int(), '%.2f' / '%.1f' as round-half-even of the exact binary value: CPython's float formatting is assumed correctly rounded); multi-query runs are modelled (one gather CSV per query, krona / lineage_summary / csv_summary aggregation)",
+    "the writers are modelled as operations on ONE shared QueryTaxResult (make_full_summary / make_human_summary sort the per-rank lists in place; kreport, bioboxes, krona, lineage_summary read them): the stream runs random sequences of writers on one object and requires each output to equal the same writer's output on a fresh object, and runs `tax metagenome -F <random subset / thorough: every subset>` comparing every file with the in-process writer run in the command's own order",
     "csv module, FileInputCSV, argparse; ANI estimation (containment_to_distance) is not modelled (property C17)",
 ]
 AS = [
@@ -40,6 +41,10 @@ def extra(chk, pkg):
             h.wait(timeout=10)
         except Exception:      # noqa: BLE001
             h.kill()
+
+
+if "--tier" in sys.argv and sys.argv[sys.argv.index("--tier") + 1] == "thorough" or os.environ.get("VERIF_TIER") == "thorough":
+    FLAVOURS = FLAVOURS + ["cliall"]          # thorough: every combination of output formats through the CLI
 
 
 if __name__ == "__main__":
